@@ -196,3 +196,91 @@ package verifier
 //@   ensures[producer] result == nil ==> okProducer(transaction.Block)
 //@   ensures[descendants] result == nil && !isContractReceiveB(transaction.Block) ==> len(transaction.Block.DescendantBlocks) == 0
 //@   modifies nothing
+
+// ======================================================================================================================
+// Property C05: a momentum is accepted only if its hash commits to its content and to the resulting state changes, it
+// directly extends the node's frontier with a strictly later timestamp, and it is signed by the elected pillar.
+// ms = the ledger as of the momentum's stated predecessor (chain.GetMomentumStore(momentum.Previous())).
+
+//@ spec mOkChainId(m *nom.Momentum, ms store.Momentum) bool = m.ChainIdentifier != 0 && m.ChainIdentifier == ms.chainId
+//@ spec mOkVersion(m *nom.Momentum) bool = m.Version == 1
+//@ spec mOkLater(m *nom.Momentum, ms store.Momentum) bool = ms.idTimestamp < m.TimestampUnix
+//@ spec mOkExtends(m *nom.Momentum, ms store.Momentum) bool = m.Height != 1 && m.PreviousHash != types.ZeroHash && m.PreviousHash == ms.idHash && (m.Height + pow2(64) - 1) % pow2(64) == ms.idHeight
+//@ spec mOkData(m *nom.Momentum) bool = len(m.Data) == 0
+//@ spec mOkSize(m *nom.Momentum) bool = len(m.Content) <= chain.MaxAccountBlocksInMomentum
+
+//@ func rawMomentumVerifier.chainIdentifier(rmv)
+//@   requires rmv != nil && rmv.momentum != nil
+//@   ensures[iff] result == nil <==> mOkChainId(rmv.momentum, rmv.momentumStore)
+//@   modifies nothing
+
+//@ func rawMomentumVerifier.version(rmv)
+//@   requires rmv != nil && rmv.momentum != nil
+//@   ensures[iff] result == nil <==> mOkVersion(rmv.momentum)
+//@   modifies nothing
+
+//@ func rawMomentumVerifier.timestamp(rmv)
+//@   requires rmv != nil && rmv.momentum != nil
+//@   ensures[strictly-later] result == nil ==> mOkLater(rmv.momentum, rmv.momentumStore)
+//@   modifies nothing
+
+//@ func rawMomentumVerifier.previous(rmv)
+//@   requires rmv != nil && rmv.momentum != nil
+//@   ensures[extends-frontier] result == nil ==> mOkExtends(rmv.momentum, rmv.momentumStore)
+//@   modifies nothing
+
+//@ func rawMomentumVerifier.data(rmv)
+//@   requires rmv != nil && rmv.momentum != nil
+//@   ensures[iff] result == nil <==> mOkData(rmv.momentum)
+//@   modifies nothing
+
+//@ func rawMomentumVerifier.content(rmv)
+//@   requires rmv != nil && rmv.momentum != nil
+//@   ensures[size] result == nil ==> mOkSize(rmv.momentum)
+
+//@ func rawMomentumVerifier.all(rmv)
+//@   requires rmv != nil && rmv.momentum != nil
+//@   ensures[chainid] result == nil ==> old(mOkChainId(rmv.momentum, rmv.momentumStore))
+//@   ensures[version] result == nil ==> old(mOkVersion(rmv.momentum))
+//@   ensures[strictly-later] result == nil ==> old(mOkLater(rmv.momentum, rmv.momentumStore))
+//@   ensures[extends-frontier] result == nil ==> old(mOkExtends(rmv.momentum, rmv.momentumStore))
+//@   ensures[data] result == nil ==> old(mOkData(rmv.momentum))
+//@   ensures[size] result == nil ==> mOkSize(rmv.momentum)
+
+// ---- transaction-level checks: changes hash, hash, signature, elected producer ----------------------------------------------
+//@ spec mtOkChanges(t *nom.MomentumTransaction) bool = t.Changes.digest == t.Momentum.ChangesHash
+//@ spec mtOkHash(t *nom.MomentumTransaction) bool = t.Momentum.Hash == nom.mHashOf(t.Momentum)
+//@ spec mtOkSignature(t *nom.MomentumTransaction) bool = len(t.Momentum.Signature) != 0 && len(t.Momentum.PublicKey) != 0 && wallet.sigValid(bytesval(t.Momentum.PublicKey), bytesval(t.Momentum.Hash), bytesval(t.Momentum.Signature))
+
+//@ func momentumTransactionVerifier.changesHash(mv, transaction)
+//@   requires mv != nil && transaction != nil && transaction.Momentum != nil
+//@   ensures[iff] result == nil <==> mtOkChanges(transaction)
+//@   modifies nothing
+
+//@ func momentumTransactionVerifier.hash(mv, transaction)
+//@   requires mv != nil && transaction != nil && transaction.Momentum != nil
+//@   ensures[iff] result == nil <==> mtOkHash(transaction)
+//@   modifies nothing
+
+//@ func momentumTransactionVerifier.signature(mv, transaction)
+//@   requires mv != nil && transaction != nil && transaction.Momentum != nil
+//@   ensures[sig] result == nil ==> mtOkSignature(transaction)
+//@   modifies nothing
+
+//@ func momentumTransactionVerifier.producer(mv, transaction)
+//@   requires mv != nil && transaction != nil && transaction.Momentum != nil
+//@   ensures[elected] result == nil ==> mv.consensus.elected[int(transaction.Momentum)]
+//@   modifies nothing
+
+//@ func momentumTransactionVerifier.all(mv)
+//@   requires mv != nil && mv.transaction != nil && mv.transaction.Momentum != nil
+//@   ensures[changes] result == nil ==> mtOkChanges(mv.transaction)
+//@   ensures[hash] result == nil ==> mtOkHash(mv.transaction)
+//@   ensures[signature] result == nil ==> mtOkSignature(mv.transaction)
+//@   ensures[elected] result == nil ==> mv.consensus.elected[int(mv.transaction.Momentum)]
+//@   modifies nothing
+
+//@ func momentumVerifier.getContext(mv, momentum) -> (ms, err)
+//@   requires mv != nil && momentum != nil
+//@   ensures[on-chain-parent] err == nil ==> ms != nil && ms.idHash == momentum.PreviousHash && ms.idHeight == (momentum.Height + pow2(64) - 1) % pow2(64) && momentum.Height != 1 && momentum.PreviousHash != types.ZeroHash
+//@   modifies nothing
